@@ -389,9 +389,10 @@ class World(object):
         # The stack may refuse (raise) - then nothing of it may ever reach the wire; if it accepts, the stanza is transmitted once.
         from yowsup.structs import ProtocolTreeNode
         self.early_outcome = None
-        self.s.wait_until("handshake-running", lambda: (self.att == len(self.script) and self.nz._wa_noiseprotocol.state == "handshake") or getattr(self, "app_done", False))
+        self.s.wait_until("handshake-running", lambda: self.nz._wa_noiseprotocol.state == "handshake" or getattr(self, "app_done", False))
         if getattr(self, "app_done", False) or self.nz._wa_noiseprotocol.state != "handshake":
             return
+        self.early_attempt = self.att
         try:
             self.rig.top.toLower(ProtocolTreeNode("iq", {"id": "early-1", "type": "get"}))
             self.early_outcome = "accepted"
@@ -501,7 +502,7 @@ def verdict(w, deadlock, script):
                     got.append(ReadDecoder(TokenDictionary()).getProtocolTreeNode(bytearray(pt))["id"])
                 except Exception:
                     got.append("?")
-            accepted = ["early-1"] if getattr(w, "early_outcome", None) == "accepted" else []
+            accepted = ["early-1"] if getattr(w, "early_outcome", None) == "accepted" and getattr(w, "early_attempt", None) == last else []
             if sorted(got) != sorted(accepted + ["app-1", "app-2"]) or [g for g in got if g.startswith("app-")] != ["app-1", "app-2"]:
                 problems.append(("client-frames", "client stanzas at the server %s, accepted for sending %s" % (got, accepted + ["app-1", "app-2"])))
             stored = w.profile.config.server_static_public
@@ -550,7 +551,7 @@ def run():
                 for k in range(nsched if chunking != "bytes" else max(2, nsched // 4)):
                     kind = "fair" if k == 0 else "pct"
                     edge = (k % 3 == 2)
-                    w, dl = run_one(script, rng, kind, edge, chunking, early=(k % 2 == 1 and len(script) == 1))
+                    w, dl = run_one(script, rng, kind, edge, chunking, early=(k % 2 == 1))
                     try:
                         problems, cutoff = verdict(w, dl, script)
                         label = "%s:%s" % ("+".join(s_["v"] for s_ in script), chunking)
@@ -591,7 +592,13 @@ def run():
         for script in (recon if thorough else rng.sample(recon, 9)):
             for k in range(nsched // 2 if thorough else 3):
                 edge = (k % 3 == 1)       # configs with edge routing info: the preamble of EVERY login is framed the same way
-                w, dl = run_one(script, rng, "fair" if k == 0 else "pct", edge, "whole")
+                if k % 3 == 2:
+                    # the passive flag differs between the attempts (as when the control layer leaves passive mode after uploading keys)
+                    script = [dict(script[0], passive=True), dict(script[1], passive=False)]
+                elif k % 3 == 0 and k > 0:
+                    script = [dict(script[0], passive=False), dict(script[1], passive=True)]
+                # every second run: an application thread that sends while the handshake of the attempt that gets cut off is running
+                w, dl = run_one(script, rng, "fair" if k == 0 else "pct", edge, "whole", early=(k % 2 == 1))
                 try:
                     problems, cutoff = verdict(w, dl, script)
                     label = "%s(cut %s)->%s%s" % (script[0]["v"], script[0]["cut"], script[1]["v"], "+edge" if edge else "")
